@@ -13,6 +13,7 @@ let () =
   | _ :: "thread" :: _ -> R_thread.run ()
   | _ :: "temp" :: c :: _ -> R_temp.run c
   | _ :: "temp" :: _ -> R_temp.run "fixed"
+  | _ :: "container" :: _ -> R_container.run ()
   | _ :: "move" :: _ -> R_move.run ()
   | _ :: "ordered" :: "small" :: _ -> R_ordered.run_small ()
   | _ :: "ordered" :: _ -> R_ordered.run_ord ()
